@@ -1,7 +1,7 @@
 #!/usr/bin/env python3
 """Validate and evaluate a seeded change produced by an independent sub-agent.
 
-  tools/seeded.py import <src-dir> <PROP> <letter>     copy patch-<letter>.diff/demo/notes into seeded/<PROP>-<letter>/
+  tools/seeded.py import <src-dir> <PROP> <letter> [<as-letter>]   copy patch-<letter>.diff/demo/notes into seeded/<PROP>-<letter>/
   tools/seeded.py run <PROP>-<letter> [CHECK ...]       confirm (suite green, demo fails with / passes without the change)
                                                          and run the given checks (default: the property's own) against it
 
@@ -30,8 +30,8 @@ def scratch():
     return tmp, copy
 
 
-def cmd_import(src, prop, letter):
-    d = os.path.join(VERIF, "seeded", "%s-%s" % (prop, letter))
+def cmd_import(src, prop, letter, as_letter=None):
+    d = os.path.join(VERIF, "seeded", "%s-%s" % (prop, as_letter or letter))
     os.makedirs(d, exist_ok=True)
     shutil.copy(os.path.join(src, "patch-%s.diff" % letter), os.path.join(d, "patch.diff"))
     shutil.copy(os.path.join(src, "demo-%s.py" % letter), os.path.join(d, "demo.py"))
@@ -98,6 +98,6 @@ def cmd_run(name, checks):
 
 if __name__ == "__main__":
     if sys.argv[1] == "import":
-        cmd_import(sys.argv[2], sys.argv[3], sys.argv[4])
+        cmd_import(*sys.argv[2:6])
     elif sys.argv[1] == "run":
         cmd_run(sys.argv[2], sys.argv[3:])
